@@ -26,6 +26,9 @@ TRUSTED = ['hand-written Gallina mirror of krylov.py (Model/Krylov.v), tied to t
 PARTIAL = ('proved for the model, all n >= 1, numiter >= 1, every ordered field (Properties/C14.v): the calls return; sizes (len alpha = k, '
            'len beta = k-1, k <= numiter, warning <-> k < numiter); orthonormal columns; beta_j > 0; three-term recurrence; V^H A V = tridiag; '
            'Arnoldi: orthonormal V, H upper Hessenberg, A v_j = sum_{i<=j+1} H_ij v_i with positive real subdiagonal, H = V^H A V. '
+           'Early termination on an EXACTLY zero residual (warning issued and the norm answer is 0, or the residual recomputed from the returned '
+           'state is the zero vector) closes the last column: A V = V tridiag(alpha, beta) resp. A V = V H for all k returned columns '
+           '(C14_lanczos/arnoldi_zero_resid_AV_V?, C14_lanczos/arnoldi_exact_breakdown_AV_V?); for a small non-zero residual nothing is claimed. '
            'Hypotheses: Afunc maps length n to length n and is self-adjoint w.r.t. vdot (Lanczos; proved for x -> A x with Hermitian A), '
            'numpy.linalg.norm meets its contract on the issued calls, the breakdown test only lets positive norms pass. '
            'Only validated, not proved: that the mirror equals krylov.py (replay), and floating-point effects '
